@@ -32,6 +32,22 @@ pub struct Baton {
 
 thread_local! {
     static ME: RefCell<Option<(Arc<Baton>, usize)>> = const { RefCell::new(None) };
+    /// optional per-thread observer of the sites this thread yields at (see `set_site_observer`)
+    static OBSERVER: RefCell<Option<Box<dyn Fn(&'static str)>>> = const { RefCell::new(None) };
+}
+
+/// Site-name suffix of a yield made by a thread that could not take a lock
+/// (`try_lock` failed) and will retry: the controller never lets a `STAY`
+/// pick keep such a thread running, so a lock holder parked at a hook site is
+/// always reached and a waiter cannot spin the schedule away.
+pub const BLOCKED_SUFFIX: &str = ".blocked";
+
+/// Install (or clear) an observer on the calling scheduled thread. It is
+/// called with the site name at every `yield_point` of this thread, before the
+/// baton is given back. Scenarios use it to derive probes ("thread is inside
+/// window X"); it must not call `yield_point` itself.
+pub fn set_site_observer(f: Option<Box<dyn Fn(&'static str)>>) {
+    let _ = OBSERVER.try_with(|o| *o.borrow_mut() = f);
 }
 
 /// Called from harness code and (through the fn pointer installed in
@@ -39,6 +55,13 @@ thread_local! {
 pub fn yield_point(site: &'static str) -> bool {
     let me = ME.try_with(|m| m.borrow().clone()).ok().flatten();
     if let Some((b, i)) = me {
+        let _ = OBSERVER.try_with(|o| {
+            if let Ok(o) = o.try_borrow() {
+                if let Some(f) = o.as_ref() {
+                    f(site);
+                }
+            }
+        });
         let mut g = b.m.lock().unwrap();
         if g.turn == Turn::FreeRun {
             return false;
@@ -146,6 +169,10 @@ pub fn run_threads(ctx: &Arc<RunCtx>, schedule: &[u8], max_steps: usize, bodies:
         let p = schedule.get(k).copied().unwrap_or(STAY);
         k += 1;
         let choice = match (p, last) {
+            // a thread waiting for a lock does not keep the baton on STAY: the next runnable one runs
+            (STAY, Some(l)) if runnable.contains(&l) && runnable.len() > 1 && g.site_of[l].ends_with(BLOCKED_SUFFIX) => {
+                *runnable.iter().find(|i| **i > l).unwrap_or(&runnable[0])
+            },
             (STAY, Some(l)) if runnable.contains(&l) => l,
             (STAY, _) => runnable[0],
             (p, _) => runnable[p as usize % runnable.len()],
